@@ -115,6 +115,7 @@ func genC15(t *rapid.T) *C15Case {
 
 // c15Eval evaluates the scenario once on fresh builds and returns its outputs.
 func c15Eval(c *C15Case) (parts map[string]string, pm string) {
+	defer guardCall("C15 scenario evaluation")()
 	parts = map[string]string{}
 	pm = Safely(func() {
 		// help + man + ini output on a freshly built parser (after defaults)
